@@ -420,6 +420,118 @@ CONTRACTS_UNIQUE = {'unique_iter': unique_iter, 'is_iterable': is_iterable_c}
 
 def make_engine_unique(repo):
     from pyvc.engine import Engine
-    eng = Engine(repo, FILE, classes={}, contracts=CONTRACTS_UNIQUE, consts=CONSTS)
-    eng.register_class(SeenSet)
+    eng = Engine(repo, FILE, classes={}, contracts=CONTRACTS_UNIQUE, consts=CONSTS, externals={'isinstance': ext_isinstance_opaque})
+    for cls in (SeenSet, Bucket, Buckets):
+        eng.register_class(cls)
     return eng
+
+
+# ---------------------------------------------------------------------------------------------
+# bucketize(src, key, value_transform, key_filter): every (kept) element lands in exactly one bucket, in input order.
+#   Ghost: slot[j] = index of input item j inside the bucket of its key;  back[L][s] = input position stored in slot s of list L.
+Bucket = HeapClass('BucketList', 'list', e=VAL)
+Buckets = HeapClass('BucketDict', 'dict', k=VAL, v=REF(Bucket))
+IntArr2 = z3.ArraySort(z3.IntSort(), IntArr)
+
+
+isa = z3.Function('isinstance_of', Val, z3.StringSort(), z3.BoolSort())      # isinstance(x, T) for an opaque x: uninterpreted
+
+
+def ext_isinstance_opaque(eng, args, kwargs, st, node):
+    v, names = args
+    if isinstance(v, SVal):
+        return [(SBool(z3.Or(*[isa(v.t, z3.StringVal(n)) for n in names])), st)]
+    return None
+
+
+def bk_setup(eng, st, variant=None):
+    src = SVal(z3.Const('arg_src', Val))
+    eng.stable_lists.add(src.t.get_id())
+    st.ghost['slot'] = z3.Const('bk_slot_init', IntArr)
+    st.ghost['back'] = z3.Const('bk_back_init', IntArr2)
+    vt = SNone() if 'plain' in variant else SVal(z3.Const('arg_value_transform', Val))
+    kf = SNone() if 'nofilter' in variant else SVal(z3.Const('arg_key_filter', Val))
+    return dict(src=src, key=SVal(z3.Const('arg_key', Val)), value_transform=vt, key_filter=kf)
+
+
+def bk_requires(c):
+    k = c.a('key')
+    out = [('key is a callable (not a str, not a list)', z3.And(k != NONE, c.eng.f_callable(k), z3.Not(isa(k, z3.StringVal('list'))),
+                                                              z3.Not(isa(k, z3.StringVal('str')))))]
+    if isinstance(c.sv('value_transform'), SVal):
+        out.append(('value_transform is a callable', z3.And(c.a('value_transform') != NONE, c.eng.f_callable(c.a('value_transform')))))
+    if isinstance(c.sv('key_filter'), SVal):
+        out.append(('key_filter is a callable', z3.And(c.a('key_filter') != NONE, c.eng.f_callable(c.a('key_filter')))))
+    return out
+
+
+def bk_key(c, j):
+    return c.eng.f_opaque_call(c.a('key'), c.eng.f_oseq_item(c.a('src'), j))
+
+
+def bk_val(c, j):
+    x = c.eng.f_oseq_item(c.a('src'), j)
+    return x if isinstance(c.sv('value_transform'), SNone) else c.eng.f_opaque_call(c.a('value_transform'), x)
+
+
+def bk_kept(c, j):
+    if isinstance(c.sv('key_filter'), SNone):
+        return z3.BoolVal(True)
+    r = c.eng.f_opaque_call(c.a('key_filter'), bk_key(c, j))
+    return z3.And(r != NONE, c.eng.f_truthy(r))
+
+
+def bk_hint(c, event, data):
+    if event != 'list.append':
+        return []
+    lst, _v = data
+    i = c.g('$iter_index')
+    n = c.f(lst, 'len') - 1                 # the slot just filled
+    back = c.g('back')
+    return [('ghost', 'slot', z3.Store(c.g('slot'), i, n)),
+            ('ghost', 'back', z3.Store(back, lst.t, z3.Store(z3.Select(back, lst.t), n, i)))]
+
+
+def bk_facts(c, d, upto):
+    dom, val = c.f(d, 'dom'), c.f(d, 'val')
+    le, ll = c.arr(Bucket, 'elems'), c.arr(Bucket, 'len')
+    slot, back = c.g('slot'), c.g('back')
+    j, s, s2 = z3.Ints('j s s2')
+    kv, kv2 = z3.Consts('kv kv2', Val)
+    L = lambda k: z3.Select(val, k)  # noqa: E731
+    bj = z3.Select(z3.Select(back, L(kv)), s)
+    return [
+        ('every kept item processed so far sits in the bucket of its key, at its ghost slot', z3.ForAll([j], z3.Implies(
+            z3.And(0 <= j, j < upto, bk_kept(c, j)), z3.And(
+                z3.Select(dom, bk_key(c, j)), 0 <= z3.Select(slot, j), z3.Select(slot, j) < z3.Select(ll, L(bk_key(c, j))),
+                z3.Select(z3.Select(le, L(bk_key(c, j))), z3.Select(slot, j)) == bk_val(c, j),
+                z3.Select(z3.Select(back, L(bk_key(c, j))), z3.Select(slot, j)) == j)))),
+        ('every bucket slot holds exactly one kept item of that key; slots are in input order; no empty bucket', z3.And(
+            z3.ForAll([kv, s], z3.Implies(z3.And(z3.Select(dom, kv), 0 <= s, s < z3.Select(ll, L(kv))), z3.And(
+                0 <= bj, bj < upto, bk_kept(c, bj), bk_key(c, bj) == kv, z3.Select(slot, bj) == s))),
+            z3.ForAll([kv, s, s2], z3.Implies(z3.And(z3.Select(dom, kv), 0 <= s, s < s2, s2 < z3.Select(ll, L(kv))),
+                                              z3.Select(z3.Select(back, L(kv)), s) < z3.Select(z3.Select(back, L(kv)), s2))),
+            z3.ForAll([kv], z3.Implies(z3.Select(dom, kv), z3.And(z3.Select(ll, L(kv)) >= 1, L(kv) >= z3.Int('alloc0'), L(kv) < c.st.alloc))),
+            z3.ForAll([kv, kv2], z3.Implies(z3.And(z3.Select(dom, kv), z3.Select(dom, kv2), kv != kv2), L(kv) != L(kv2))))),
+    ]
+
+
+def bk_inv(c):
+    ret = c.Lsv('ret')
+    return [('ret is the dict allocated by this call', z3.And(ret.t >= z3.Int('alloc0'), ret.t == c.x['loop_entry'].locals['ret'].t,
+                                                                ret.t < c.st.alloc))] + bk_facts(c, ret, c.x['i'])
+
+
+def bk_ensures(c):
+    r = c.result
+    if not isinstance(r, SRef):
+        return [('returns the bucket dict', z3.BoolVal(False))]
+    return bk_facts(c, r, c.eng.f_oseq_len(c.a('src')))
+
+
+BK_KEYS = [('BucketDict', 'dom'), ('BucketDict', 'val'), ('BucketDict', 'size'), ('BucketList', 'elems'), ('BucketList', 'len')]
+bucketize = Contract('bucketize', setup=bk_setup, requires=bk_requires, ensures=bk_ensures, modifies=lambda c: list(BK_KEYS),
+                     loops={0: Loop(bk_inv, heap=list(BK_KEYS), ghost=['slot', 'back'])}, local_types=dict(ret=REF(Buckets)),
+                     hints=bk_hint, variants=['plain,nofilter', 'transform,filter'])
+bucketize.ghost_mod = ['slot', 'back']
+CONTRACTS_UNIQUE['bucketize'] = bucketize
